@@ -414,6 +414,11 @@ def _c09_extra():
 
     attempt("normalize_keys", b_normalize_keys, "def normalize_keys : List String := normalizeKeysAllowed\n")
 
+    # ================= phase 3 =====================================================================
+    from . import c09_tables as tb
+    for name, build, fallback in tb.TABLES:
+        attempt(name, build, fallback)
+
     return "\n".join(chunks), status
 
 
